@@ -1084,8 +1084,11 @@ def alias_text(name, params, ret, why):
         why.replace("*)", "* )").replace("(*", "( *"), name, " ".join(binders), result_type(params, ret), name, " ".join(names))
 
 
-def translate_sources(sources, origin="deap/tools"):
-    """sources: {"crossover.py": text, "mutation.py": text} -> (Gallina text, {function: refusal or None})"""
+def translate_sources(sources, origin="deap/tools", forced=None):
+    """sources: {"crossover.py": text, "mutation.py": text} -> (Gallina text, {function: refusal or None}).
+    forced: {function: Refuse} functions to emit as aliases whatever the translation gives (used by the
+    harness when a generated definition does not type-check: refused, not guessed)."""
+    forced = forced or {}
     trees, modfail = {}, {}
     for f in FILES:
         try:
@@ -1100,6 +1103,8 @@ def translate_sources(sources, origin="deap/tools"):
     status = {}
     for name, f, params, ret in SIG:
         try:
+            if name in forced:
+                raise forced[name]
             if f in modfail:
                 raise modfail[f]
             tree, bound = trees[f]
@@ -1120,7 +1125,7 @@ def translate_sources(sources, origin="deap/tools"):
     return out, status
 
 
-def translate_repo(repo):
+def translate_repo(repo, forced=None):
     srcs = {}
     for f in FILES:
         p = os.path.join(repo, "deap", "tools", f)
@@ -1128,7 +1133,7 @@ def translate_repo(repo):
             srcs[f] = open(p).read()
         except OSError as e:
             srcs[f] = "def (:  # unreadable: %s" % e
-    return translate_sources(srcs, os.path.join(repo, "deap", "tools"))
+    return translate_sources(srcs, os.path.join(repo, "deap", "tools"), forced)
 
 
 if __name__ == "__main__":
